@@ -164,6 +164,11 @@ impl LockStep {
             // what lands in the scrollback is C06's business whichever command scrolled
             return true;
         }
+        if p == "C04" && what.contains("blank cell has pen") {
+            // printing never creates blanks; a wrongly penned blank comes from the
+            // scroll a wrap caused, and what a scroll leaves behind is C06/C08's business
+            return false;
+        }
         if p == "C08" && what.contains("blank cell has pen") {
             // "every cell ... blanked afterwards reports exactly that pen"
             return true;
